@@ -284,6 +284,11 @@ impl MqttState {
             if let Some(max_inflight) = props.receive_max {
                 self.max_outgoing_inflight =
                     max_inflight.min(self.max_outgoing_inflight_upper_limit);
+                // the allocator wraps around when it reaches the limit exactly:
+                // restart it if the new limit is already behind it
+                if self.last_pkid >= self.max_outgoing_inflight {
+                    self.last_pkid = 0;
+                }
                 // FIXME: Maybe resize the pubrec and pubrel queues here
                 // to save some space.
             }
